@@ -114,7 +114,11 @@ func (c *BaseLayout) PutBuffer(buf *bytes.Buffer) {
 func (c *BaseLayout) GetFileLine(e *Event) string {
 	fileLine := e.File + ":" + strconv.Itoa(e.Line)
 	if n := len(fileLine); n > c.FileLineLength {
-		fileLine = "..." + fileLine[n-c.FileLineLength+3:]
+		keep := 0 // number of trailing bytes kept after the "..." marker
+		if c.FileLineLength > 3 {
+			keep = c.FileLineLength - 3
+		}
+		fileLine = "..." + fileLine[n-keep:]
 	}
 	return fileLine
 }
